@@ -9,7 +9,9 @@
    value handed out).  [jar_ok] is the Dolev-Yao closure for cookie values
    (anything not signed by the SP's key, the cookies this middleware issued,
    tokens of other deployments, session tokens of anyone). *)
-From Saml Require Import Base Tokens TokensProofs Middleware MiddlewareProofs.
+(* SPModel first (used qualified, in the C04 section at the end): the later imports shadow its names *)
+From Saml Require Import SPModel.
+From Saml Require Import Base Tokens TokensProofs Middleware MiddlewareProofs MiddlewareSP.
 
 (* With IdP-initiated login off, after any history, an ACS request obtains a
    session cookie only if its jar presents — under the name prefix++index —
@@ -128,3 +130,85 @@ Theorem C17_check_sound :
             hcase_agree c = true -> hcase_spec c = true.
 Proof. exact hcase_check_sound. Qed.
 Print Assumptions C17_check_sound.
+
+(* ====================================================================== *)
+(* C04, last mechanism: "the middleware supplies the outstanding request IDs
+   from authenticated tracking cookies" — the tie between this state machine
+   and the SP acceptance model (SPModel.v, property C04).
+   [mw_possible_ids m j] is the list ServeACS hands to ParseResponse in state m
+   for the jar j (the list Deliver's verdict is evaluated against). *)
+
+(* For every state and every jar, an id is in the list iff it is "" with
+   IdP-initiated on, or the SAMLRequestID signed inside a cookie of the jar that
+   the tracking codec accepts now (authentic, unexpired) and whose name is
+   prefix ++ its signed index.  For reachable states and jars in the
+   Dolev-Yao closure those cookies are exactly the live cookies of flows this
+   middleware started, under their own names. *)
+Theorem C04_middleware_possible_ids :
+  (forall m j x,
+      In x (mw_possible_ids m j) <->
+      (m_allow_idp (mw_cfg m) = true /\ x = "")
+      \/ exists n w tr, In (n, w) j
+                        /\ decode_tracking (m_tcodec (mw_cfg m)) (mw_clock m) w = Some tr
+                        /\ n = m_prefix (mw_cfg m) +++ tr_index tr
+                        /\ x = tr_req_id tr)
+  /\ (forall cfg t0 hist j x,
+         let m := run (init cfg t0) hist in
+         codec_wf (m_tcodec cfg) -> jar_ok m j ->
+         (In x (mw_possible_ids m j) <->
+          (m_allow_idp cfg = true /\ x = "")
+          \/ exists f, In f (mw_flows m) /\ x = fl_req_id f
+                       /\ In (m_prefix cfg +++ fl_index f, fl_cookie f) j
+                       /\ flow_live cfg (mw_clock m) f = true)).
+Proof.
+  split; [exact possible_ids_decode|].
+  intros cfg t0 hist j x m Hwf Hj.
+  assert (Hcfg : mw_cfg m = cfg) by (unfold m; rewrite run_cfg; reflexivity).
+  rewrite <- Hcfg in Hwf. rewrite <- Hcfg.
+  apply possible_ids_flows; [apply run_flows_ok, init_flows_ok | assumption | assumption].
+Qed.
+Print Assumptions C04_middleware_possible_ids.
+
+(* SPModel's response-level request-id rule evaluated on the middleware's list
+   (IdP-initiated off, no ValidateRequestID hook): the InResponseTo is the
+   request ID of a flow this middleware started, whose authentic tracking
+   cookie is in the jar under prefix ++ its index and is inside its lifetime.
+   With C04_accept_implies_outstanding: whatever ParseResponse accepts through
+   the middleware answers one of the browser's own pending flows. *)
+Theorem C04_middleware_outstanding_is_own_flow :
+  forall cfg t0 hist (sc : SPModel.spcfg) j (resp : SPModel.response),
+    let m := run (init cfg t0) hist in
+    m_allow_idp cfg = false -> SPModel.allow_idp_init sc = false -> SPModel.custom_reqid sc = None ->
+    jar_ok m j ->
+    SPModel.reqid_ok_r sc (mw_possible_ids m j) resp = true ->
+    exists f, In f (mw_flows m) /\ SPModel.r_irt resp = fl_req_id f
+              /\ In (m_prefix cfg +++ fl_index f, fl_cookie f) j
+              /\ fl_cookie f = WToken (mint_tracking (m_arr cfg) (m_tcodec cfg) (fl_start f) (flow_tracked f))
+              /\ fl_start f <= mw_clock m
+              /\ mw_clock m < sec (fl_start f + c_max_age (m_tcodec cfg)) * tk_ns_per_s.
+Proof. exact outstanding_is_own_flow. Qed.
+Print Assumptions C04_middleware_outstanding_is_own_flow.
+
+(* the same for every subject confirmation of the returned assertion (reqid_ok_a) *)
+Theorem C04_middleware_confirmations_are_own_flows :
+  forall cfg t0 hist (sc : SPModel.spcfg) j (a : SPModel.assertion) nid confs,
+    let m := run (init cfg t0) hist in
+    m_allow_idp cfg = false -> SPModel.allow_idp_init sc = false -> jar_ok m j ->
+    SPModel.a_subject a = Some (nid, confs) ->
+    SPModel.reqid_ok_a sc (mw_possible_ids m j) a = true ->
+    forall c, In c confs ->
+      exists f, In f (mw_flows m) /\ SPModel.sc_irt c = fl_req_id f
+                /\ In (m_prefix cfg +++ fl_index f, fl_cookie f) j
+                /\ flow_live cfg (mw_clock m) f = true.
+Proof. exact confirmations_are_own_flows. Qed.
+Print Assumptions C04_middleware_confirmations_are_own_flows.
+
+(* and the abstract verdict of the Deliver step IS that rule (plus "otherwise
+   valid" and freshness), evaluated against this very list *)
+Theorem C04_middleware_verdict_is_sp_rule :
+  forall (cfg : mwcfg) (sc : SPModel.spcfg) now ids (r : response) (resp : SPModel.response),
+    SPModel.custom_reqid sc = None -> SPModel.allow_idp_init sc = m_allow_idp cfg ->
+    SPModel.r_irt resp = r_irt r ->
+    sp_verdict cfg now ids r = r_ok r && response_fresh cfg now r && SPModel.reqid_ok_r sc ids resp.
+Proof. exact sp_verdict_is_reqid_ok. Qed.
+Print Assumptions C04_middleware_verdict_is_sp_rule.
